@@ -6,7 +6,7 @@ PROP = dict(
           "the 90 % cap reuses the exact kernel of coq/Models/Stable.v over Base/Zdec.v)",
     coq_deps=["Base/", "Models/SumLedger.v", "Proofs/SumLedgerProofs.v", "Models/Stable.v", "Proofs/StableProofs.v",
               "Models/VaultLedger.v", "Proofs/VaultLedgerProofs.v", "Run/VaultLedgerRun.v", "Props/C06.v"],
-    rule="the shared ledger histories (see C01: swaps incl. recipient = the vault's module account, joins, exits, bond, unbond, leveraged-LP open / consolidating re-open / "
+    rule="the shared ledger histories (two of three on a market with TWO leveraged-LP pools borrowing from the one vault; see C01: swaps incl. recipient = the vault's module account, joins, exits, bond, unbond, leveraged-LP open / consolidating re-open / "
          "owner close 1 unit..all / third-party liquidate and stop-loss / begin-block sweeps, perpetual traffic, oracle price moves, block gaps 5 s .. 1 day) with C06-only "
          "additions from a separate PRNG stream: keeper-level add-collateral (dust .. liability+1 .. 2x), unbonds of the big lender (1/1000 .. all: refused when cash is short), "
          "block gaps of 1-30 days (interest), price halvings followed by liquidation requests (positions worth less than their debt: partial repay), 9.5-10x opens of 1e8..1e11, "
